@@ -509,6 +509,68 @@ package gabi
 //@   modifies b.skRandomizer
 //@   loop 0 invariant uCommit != nil && fresh(uCommit) && val(uCommit) == utilde(b) && b.skRandomizer == randomizers["secretkey"]
 
+//@ # ---- issuer side (C05 signing, C06) ----
+//@ pred wfsk(sk) := sk != nil && sk.Order != nil && val(sk.Order) > 1
+//@ # CL signing: v = 2^(lv-1) + v~, Q = Z / (S^v * R(ms) * U) mod N, e a probable prime >= 2^(le-1), d = e^-1 mod the group order (the two inverses are
+//@ # the results of this call's ModInverse calls: ghosts iq, d, with their defining congruences), A = Q^d mod N
+//@ func signMessageBlockAndCommitment
+//@   property C05 C06
+//@   safety
+//@   requires wfsk(sk) && wfpk(pk) && U != nil && forall i in 0..len(ms) :: ms[i] != nil && val(ms[i]) >= 0
+//@   requires pk.Params.Lv >= 2 && pk.Params.Lv <= 65536 && pk.Params.Le >= 2 && pk.Params.Le <= 65536 && pk.Params.LePrime >= 2 && pk.Params.LePrime <= 65536
+//@   ghost at common.ModInverse[#0] iq: val($r0)
+//@   ghost at common.ModInverse[#1] d: val($r0)
+//@   ensures shape: err == nil ==> result0 != nil && fresh(result0) && result0.A != nil && result0.E != nil && result0.V != nil && result0.KeyshareP == nil
+//@   ensures[C05] exponent: err == nil ==> isprime(val(result0.E)) && val(result0.E) >= pow2(pk.Params.Le - 1) && pow2(pk.Params.Lv - 1) <= val(result0.V) && val(result0.V) < pow2(pk.Params.Lv)
+//@   ensures[C05] signed: err == nil ==> rem(rem(prod(prod(pow(val(pk.S), val(result0.V), val(pk.N)), represent(pk.R, ms, pk.N, pk.Params.Lm, 0, len(ms))), val(U)), val(pk.N)) * ghost(iq) - 1, val(pk.N)) == 0 && rem(val(result0.E) * ghost(d) - 1, val(sk.Order)) == 0 && val(result0.A) == pow(rem(prod(val(pk.Z), ghost(iq)), val(pk.N)), ghost(d), val(pk.N))
+//@   ensures fail: err != nil ==> result0 == nil
+//@   modifies nothing
+
+//@ func randomElementMultiplicativeGroup
+//@   property C06
+//@   safety
+//@   requires modulus != nil && val(modulus) > 1
+//@   ensures unit: err == nil ==> result0 != nil && val(result0) > 0 && val(result0) < val(modulus) && gcd(val(result0), val(modulus)) == 1
+//@   ensures fail: err != nil ==> result0 == nil
+//@   modifies nothing
+//@   loop 0 invariant r != nil && t != nil && fresh(t) && val(modulus) > 1 && (val(r) > 0 ==> val(r) < val(modulus))
+//@   loop 0 modifies onlyfresh("BV")
+
+//@ # proof of signature correctness: c = H(context, Q, A, n2, Q^e~) and response e~ - c * e^-1 mod the group order
+//@ func (*Issuer).proveSignature
+//@   property C06
+//@   safety
+//@   requires i != nil && wfsk(i.Sk) && wfpk(i.Pk) && i.Context != nil && nonce2 != nil && signature != nil && signature.A != nil && signature.E != nil && val(signature.E) >= 0
+//@   assert at common.HashCommit shape: len($0) == 5 && $0[0] == i.Context && $0[2] == signature.A && $0[3] == nonce2 && !$1 && val($0[1]) == pow(val(signature.A), val(signature.E), val(i.Pk.N))
+//@   ensures ok: err == nil ==> result0 != nil && fresh(result0) && result0.C != nil && result0.EResponse != nil && 0 <= val(result0.EResponse) && val(result0.EResponse) < val(i.Sk.Order)
+//@   ensures fail: err != nil ==> result0 == nil
+//@   modifies nothing
+
+//@ func (*Issuer).signCommitmentAndAttributes
+//@   property C06
+//@   safety
+//@   requires i != nil && wfsk(i.Sk) && wfpk(i.Pk) && U != nil && i.Pk.Params.Lm >= 2 && i.Pk.Params.Lm <= 65536 && forall k in 0..len(blind) :: 0 <= blind[k] && blind[k] < len(attributes)
+//@   requires i.Pk.Params.Lv >= 2 && i.Pk.Params.Lv <= 65536 && i.Pk.Params.Le >= 2 && i.Pk.Params.Le <= 65536 && i.Pk.Params.LePrime >= 2 && i.Pk.Params.LePrime <= 65536
+//@   requires forall k in 0..len(attributes) :: attributes[k] == nil || val(attributes[k]) >= 0
+//@   requires forall k in 0..len(attributes) :: attributes[k] == nil ==> exists b in 0..len(blind) :: blind[b] == k
+//@   ensures ok: err == nil ==> result0 != nil && result1 != nil && result0.A != nil && result0.E != nil && result0.V != nil && isprime(val(result0.E)) && val(result0.E) >= pow2(i.Pk.Params.Le - 1)
+//@   ensures fail: err != nil ==> result0 == nil && result1 == nil
+//@   modifies nothing
+//@   loop 0 invariant 0 <= $i && $i <= len(blind) && fresh(ms) && len(ms) == len(attributes) + 1 && mIssuer != nil && fresh(mIssuer) && ms[0] != nil && val(ms[0]) == 0 && (forall k in 0..len(attributes) :: (ms[k+1] == attributes[k] || (ms[k+1] != nil && val(ms[k+1]) >= 0))) && forall b in 0..$i :: ms[blind[b]+1] != nil
+//@   loop 0 modifies elems(ms), mapof(mIssuer)
+
+//@ func (*Issuer).IssueSignature
+//@   property C06
+//@   safety
+//@   requires i != nil && wfsk(i.Sk) && wfpk(i.Pk) && i.Context != nil && i.Pk.Params.Lm >= 2 && i.Pk.Params.Lm <= 65536 && forall k in 0..len(blind) :: 0 <= blind[k] && blind[k] < len(attributes)
+//@   requires i.Pk.Params.Lv >= 2 && i.Pk.Params.Lv <= 65536 && i.Pk.Params.Le >= 2 && i.Pk.Params.Le <= 65536 && i.Pk.Params.LePrime >= 2 && i.Pk.Params.LePrime <= 65536
+//@   requires forall k in 0..len(attributes) :: attributes[k] == nil || val(attributes[k]) >= 0
+//@   requires forall k in 0..len(attributes) :: attributes[k] == nil ==> exists b in 0..len(blind) :: blind[b] == k
+//@   ensures[C06] refused: U == nil || nonce2 == nil ==> err != nil
+//@   ensures ok: err == nil ==> result0 != nil && result0.Signature != nil && result0.Signature.A != nil && result0.Signature.E != nil && result0.Signature.V != nil && isprime(val(result0.Signature.E)) && result0.Proof != nil && result0.Proof.C != nil && result0.Proof.EResponse != nil && result0.NonRevocationWitness == witness
+//@   ensures fail: err != nil ==> result0 == nil
+//@   modifies nothing
+
 //@ # ---- keyshare server, first message (C14): one randomizer for all keys, short enough for the smallest key ----
 //@ func NewKeyshareCommitments
 //@   property C14
